@@ -784,13 +784,13 @@ func goderiveAt(cfg hx.Config, dir string, mode int, flags ...string) hx.RunResu
 	args := append([]string{}, flags...)
 	switch mode {
 	case 1:
-		return hx.Goderive(cfg.Goderive, dir, append(args, "./inner")...)
+		return goderiveRun(cfg, dir, append(args, "./inner")...)
 	case 2:
-		return hx.Goderive(cfg.Goderive, dir, append(args, "p/inner")...)
+		return goderiveRun(cfg, dir, append(args, "p/inner")...)
 	case 3:
-		return hx.Goderive(cfg.Goderive, dir, append(args, "./...")...)
+		return goderiveRun(cfg, dir, append(args, "./...")...)
 	}
-	return hx.Goderive(cfg.Goderive, dir, append(args, ".")...)
+	return goderiveRun(cfg, dir, append(args, ".")...)
 }
 
 func runIn(cfg hx.Config, dir string, v ver, old []byte, oldExists bool) outcome {
@@ -855,12 +855,39 @@ func runInModeFlags(cfg hx.Config, dir string, mode int, flags []string, v ver, 
 			os.Remove(gen)
 		}
 		g = goderiveAt(cfg, dir, mode, flags...)
-		if !g.TimedOut {
+		if !g.TimedOut && g.Exit != -2 {
 			break // a 30 s timeout of a 10 ms run is the machine's load, not goderive: try again
 		}
 	}
 	b, err := os.ReadFile(gen)
 	return outcome{exit: g.Exit, exists: err == nil, bytes: b, log: g.Out}
+}
+
+// goderiveRun: hx.Goderive; a process that could not be started or whose output could not be collected (exit -2:
+// fork/exec or the wait for its pipes failed on an overloaded machine) says nothing about goderive and is tried again.
+func goderiveRun(cfg hx.Config, dir string, args ...string) hx.RunResult {
+	var g hx.RunResult
+	for attempt := 0; attempt < 4; attempt++ {
+		g = hx.Goderive(cfg.Goderive, dir, args...)
+		if g.Exit != -2 {
+			break
+		}
+		hx.Sleep(1)
+	}
+	return g
+}
+
+// vetRun: hx.GoVet, tried again when the go command could not be started (exit -2).
+func vetRun(dir string, tags string, pkgs ...string) hx.RunResult {
+	var g hx.RunResult
+	for attempt := 0; attempt < 4; attempt++ {
+		g = hx.GoVet(dir, tags, pkgs...)
+		if g.Exit != -2 {
+			break
+		}
+		hx.Sleep(1)
+	}
+	return g
 }
 
 func sameAs(a, s outcome) bool {
@@ -879,6 +906,8 @@ type collector struct {
 	meta *hx.Meta
 	nrun int
 	bad  int
+
+	modDirect map[string]int
 }
 
 func (c *collector) add(line string) {
@@ -1118,7 +1147,7 @@ func Run(cfg hx.Config) (*hx.Meta, error) {
 			}
 			if a.exit == 0 && s.exit == 0 {
 				// the result type-checks
-				if vet := hx.GoVet(pkgDir(dir, mode), ""); vet.Exit != 0 {
+				if vet := vetRun(pkgDir(dir, mode), ""); vet.Exit != 0 {
 					fs := files(v, prev.bytes, prev.exists)
 					fs["derived.gen.go (after the run)"] = string(a.bytes)
 					col.meta.AddDirect(hx.Direct{Class: "c07-vet-fails",
@@ -1180,7 +1209,7 @@ func Run(cfg hx.Config) (*hx.Meta, error) {
 			col.meta.CountSafe("flags/" + strings.Join(fl, " ") + map[bool]string{true: "/no call renamed", false: "/calls renamed in the sources"}[modelA])
 			col.observeCtx(cfg, fmt.Sprintf("%s step %d (%s)", h.name, si, h.desc[si]), v, prevF.bytes, prevF.exists, aF, sF, fl, modelA)
 			if aF.exit == 0 && sF.exit == 0 {
-				if vet := hx.GoVet(pkgDir(dirF, modeF), ""); vet.Exit != 0 {
+				if vet := vetRun(pkgDir(dirF, modeF), ""); vet.Exit != 0 {
 					fs := files(v, prevF.bytes, prevF.exists)
 					fs["derived.gen.go (after the run)"] = string(aF.bytes)
 					col.meta.AddDirect(hx.Direct{Class: "c07-vet-fails",
@@ -1274,8 +1303,8 @@ func Run(cfg hx.Config) (*hx.Meta, error) {
 				addr = append(addr, fmt.Sprintf("p/q%d", pi))
 			}
 		}
-		g := hx.Goderive(cfg.Goderive, root, addr...)
-		gs := hx.Goderive(cfg.Goderive, sroot, addr...)
+		g := goderiveRun(cfg, root, addr...)
+		gs := goderiveRun(cfg, sroot, addr...)
 		col.meta.CountSafe("multi-package-invocation/" + map[bool]string{false: "pattern", true: "import-paths"}[mi%2 == 1])
 		for pi, q := range pks {
 			rd := func(rt string, ex int, log string) outcome {
